@@ -161,7 +161,7 @@ type histRunner struct {
 
 func newHistRunner(p histParams) *histRunner {
 	o := harness.ProxyOpts{YAML: proxyYAML(p.Policy), Backends: []string{"a", "b"}, TemplateVars: map[string]string{},
-		Lifetime: time.Duration(p.L) * time.Second, Valid: time.Duration(p.V) * time.Second, Grace: time.Duration(p.G) * time.Second, GraceZero: p.G == 0}
+		Lifetime: time.Duration(p.L) * time.Second, Valid: time.Duration(p.V) * time.Second, Grace: time.Duration(p.G) * time.Second, GraceZero: p.G == 0, ValidZero: p.V == 0}
 	e, err := harness.NewProxyEnv(o)
 	if err != nil {
 		panic(explore.HarnessError{Msg: "cannot build proxy: " + err.Error()})
